@@ -12,6 +12,10 @@ Tie (a)    translator (below): Python `ast` over the `__init__` of every registe
 Tie (b)    correspondence: every extension x pre-existing content x {save, md.open+write, md.open only} x
            {1, 3 frames} x force_overwrite is run on real files (sha256 of every path before/after, reload)
            and compared inside coqc with the status the translated program predicts.
+Read side  coq/Overwrite/Sessions.v: mode 'a' (old bytes stay a prefix), unknown mode strings (refused, untouched), read
+           sessions (constructor in mode 'r' followed by ANY sequence of the open() sites found in the other methods of
+           the class), the registered load_* functions and md.open defaults as level-2 programs, default value of every
+           mode parameter; all regenerated from the sources and re-checked in Gen/OverwriteChecks.v on every run.
 Search     the sha256 oracle itself (property stated on the implementation) over the same grid.
 """
 import ast
@@ -28,8 +32,11 @@ EXTS = ["xtc", "trr", "dcd", "dtr"]
 RULE = ("grid: extension accepted by Trajectory.save / md.open('w') x pre-existing content {absent, valid same "
         "format, longer valid file, unrelated bytes, directory} x entry {save, open+write, open only} x frames "
         "{1,3} x position of the pre-existing file among the numbered restart files x force_overwrite; "
-        "read entry points {load, open.read, iterload, load_frame, len/seek} x extension; a case is non-trivial "
-        "when something exists at a target; distinct by hash of the case")
+        "read entry points {load, open.read, iterload, load_frame, len/seek, the registered load function, seek "
+        "backwards after reading, write() on a read handle, partial reads, load of a list, iterload options} x extension "
+        "(sha256 AND modification time of every file before/after); modes other than 'w': md.open(path, 'a' | a string "
+        "that is no mode) + write, Trajectory.save_hdf5(mode='a'|'x') x pre-existing content x force_overwrite; a case is "
+        "non-trivial when something exists at a target; distinct by hash of the case")
 TRUSTED = ["translator harness/props/C20.py:translate (decides which source text becomes which effect term; its "
            "table of effectful callees and of pure path functions is listed in the file)",
            "harness/impl/overwrite_impl.py (creates the pre-existing content, hashes every path, reloads)",
@@ -696,6 +703,9 @@ def helper_funcs(repo):
     return {n.name: n for n in tree.body if isinstance(n, ast.FunctionDef) and n.name == "open_maybe_zipped"}
 
 
+CTOR_SIG = {}      # key -> {"params": [...], "mode_default": "MR"|..|None, "force_default": bool|None} (filled by translate_ctor)
+
+
 def translate_ctor(repo, entry, funcs):
     key, rel, cls, meth, is_pyx = entry
     text = read(repo, rel)
@@ -726,6 +736,13 @@ def translate_ctor(repo, entry, funcs):
         fo_default = bool(defaults["force_overwrite"].value)
     tr = Tr(funcs, {"_initialize_write": iw} if iw else {})
     term = renumber(simplify(tr.block(fn.body, bind, ("Skip",))))
+    mode_default = None
+    if "mode" in defaults and isinstance(defaults["mode"], ast.Constant):
+        v = defaults["mode"].value
+        v = v.decode() if isinstance(v, bytes) else v
+        mode_default = MODES.get(v, "MOther")
+    CTOR_SIG[key] = {"params": [q for q in params if q != "self"], "mode_default": mode_default,
+                     "force_default": fo_default}
     return term, fo_default, "force_overwrite" in bind
 
 
@@ -889,7 +906,7 @@ def psstmt(t, ind=2):
     return "(%s %s\n%s  %s)" % (t[0], psstmt(t[1], ind + 2), sp, psstmt(t[2], ind + 2))
 
 
-def translate_saver(fn, ctor_force_default):
+def translate_saver(fn, ctor_force_default, mode_override=None):
     params = [a.arg for a in fn.args.args]
     if "filename" not in params or "force_overwrite" not in params:
         raise Outside("%s lacks filename/force_overwrite parameters" % fn.name)
@@ -897,6 +914,10 @@ def translate_saver(fn, ctor_force_default):
     mode_defaults = {}
     if "mode" in defaults and isinstance(defaults["mode"], ast.Constant) and defaults["mode"].value in MODES:
         mode_defaults["mode"] = defaults["mode"].value
+    if mode_override is not None:
+        if "mode" not in params:
+            raise Outside("%s has no mode parameter" % fn.name)
+        mode_defaults["mode"] = mode_override
     st = SaveTr()
     ctx = {"in_for": False, "numbered": set(), "mode_defaults": mode_defaults, "ctor_force_default": ctor_force_default}
     return st.block(fn.body, ctx)
@@ -1003,6 +1024,280 @@ def translate_md_open(fn):
     return out
 
 
+
+# ---- read side: registered load_* functions, md.open defaults, call sites in the methods of the file classes
+def extract_module_def(text, name):
+    """source text of the module-level function `name` (works for .pyx)"""
+    m = re.search(r"^def\s+%s\s*\(" % re.escape(name), text, re.M)
+    if not m:
+        return None
+    lines = text[m.start():].splitlines()
+    out = [lines[0]]
+    for ln in lines[1:]:
+        if ln.strip() and not ln[0].isspace() and not ln.lstrip().startswith(")"):
+            break
+        out.append(ln)
+    return "\n".join(out)
+
+
+def save_dispatch_forwards(fn):
+    """Trajectory.save: `saver = savers[extension]` ... `return saver(filename, **kwargs)` with the ** parameter of save
+    itself, never modified before the call: force_overwrite (and everything else) reaches the saver as given"""
+    if fn.args.kwarg is None:
+        raise Outside("Trajectory.save has no **kwargs")
+    kw = fn.args.kwarg.arg
+    for n in ast.walk(fn):
+        if isinstance(n, ast.Call) and isinstance(n.func, ast.Attribute) and isinstance(n.func.value, ast.Name) \
+                and n.func.value.id == kw and n.func.attr in ("pop", "update", "clear", "setdefault", "popitem"):
+            raise Outside("Trajectory.save modifies its keyword arguments (%s.%s)" % (kw, n.func.attr))
+        if isinstance(n, (ast.Assign, ast.AugAssign, ast.Delete)):
+            tg = n.targets if not isinstance(n, ast.AugAssign) else [n.target]
+            for t in tg:
+                for x in ast.walk(t):
+                    if isinstance(x, ast.Name) and x.id in (kw, "filename"):
+                        raise Outside("Trajectory.save reassigns %s" % x.id)
+    rets = [n for n in ast.walk(fn) if isinstance(n, ast.Return) and isinstance(n.value, ast.Call)]
+    if len(rets) != 1:
+        raise Outside("Trajectory.save: not exactly one `return saver(...)`")
+    c = rets[0].value
+    if not (isinstance(c.func, ast.Name) and len(c.args) == 1 and isinstance(c.args[0], ast.Name)
+            and c.args[0].id == "filename" and len(c.keywords) == 1 and c.keywords[0].arg is None
+            and isinstance(c.keywords[0].value, ast.Name) and c.keywords[0].value.id == kw):
+        raise Outside("Trajectory.save does not end in `return saver(filename, **%s)`" % kw)
+    sv = c.func.id
+    ok = any(isinstance(n, ast.Assign) and len(n.targets) == 1 and isinstance(n.targets[0], ast.Name)
+             and n.targets[0].id == sv and isinstance(n.value, ast.Subscript) for n in ast.walk(fn))
+    if not ok:
+        raise Outside("Trajectory.save: %s is not looked up in the saver table" % sv)
+    return True
+
+
+def loader_table(repo):
+    """extension -> (file, function name) from the @FormatRegistry.register_loader decorations"""
+    tab = {}
+    for _key, rel, _cls, _m, _p in CLASSES:
+        text = read(repo, rel)
+        for m in re.finditer(r"((?:^@FormatRegistry\.register_loader\(\s*['\"]\.[\w.]+['\"]\s*\)\s*\n)+)def\s+(\w+)", text, re.M):
+            for e in re.findall(r"['\"]\.([\w.]+)['\"]", m.group(1)):
+                tab[e] = (rel, m.group(2))
+    return tab
+
+
+def _ctor_call_args(call, key):
+    """actual arguments of a constructor call by parameter name"""
+    sig = CTOR_SIG.get(key)
+    if sig is None:
+        raise Outside("constructor signature of %s unknown" % key)
+    actual = {}
+    for pn, a in zip(sig["params"], call.args):
+        if isinstance(a, ast.Starred):
+            raise Outside("constructor call with *args")
+        actual[pn] = a
+    for k in call.keywords:
+        if k.arg is not None:
+            actual[k.arg] = k.value
+    return actual, sig
+
+
+def translate_loader(repo, rel, name, depth=0):
+    """a registered load_* function -> sstmt: its constructor calls with the mode they receive"""
+    text = read(repo, rel)
+    src = extract_module_def(text, name)
+    if src is None:
+        raise Outside("%s not found in %s" % (name, rel))
+    if rel.endswith(".pyx"):
+        src = strip_pyx(src)
+    try:
+        fn = ast.parse(textwrap.dedent(src)).body[0]
+    except SyntaxError as e:
+        raise Outside("cannot parse %s: %s" % (name, e))
+    if not fn.args.args or fn.args.args[0].arg != "filename":
+        raise Outside("%s: first parameter is not filename" % name)
+    withs = []
+    for n in ast.walk(fn):
+        if isinstance(n, ast.Call):
+            cname = dotted(n.func)
+            if cname in CLASS_BY_NAME:
+                withs.append(n)
+            elif cname in OPENERS or cname in LIB_OPENERS or cname in REMOVERS or cname == "open_maybe_zipped":
+                if any(isinstance(x, ast.Name) and x.id == "filename" for a in list(n.args) + [k.value for k in n.keywords]
+                       for x in ast.walk(a)):
+                    raise Outside("%s opens the filename itself through %s" % (name, cname))
+    if not withs:
+        # delegation: `return _helper(filename, ...)` to a function of the same module
+        if depth < 2:
+            for n in ast.walk(fn):
+                if isinstance(n, ast.Call) and isinstance(n.func, ast.Name) and n.args \
+                        and isinstance(n.args[0], ast.Name) and n.args[0].id == "filename" \
+                        and extract_module_def(text, n.func.id) is not None:
+                    return translate_loader(repo, rel, n.func.id, depth + 1)
+        raise Outside("%s constructs no file object" % name)
+    parts = [("SMayRaise", 1)]
+    for c in withs:
+        key = CLASS_BY_NAME[dotted(c.func)]
+        actual, sig = _ctor_call_args(c, key)
+        p = actual.get("filename")
+        if isinstance(p, ast.Call) and dotted(p.func) in ("os.fspath", "str", "os.fsdecode") and p.args:
+            p = p.args[0]
+        if not (isinstance(p, ast.Name) and p.id == "filename"):
+            raise Outside("%s constructs a file object on something that is not its filename" % name)
+        m = actual.get("mode")
+        if m is None:
+            mode = sig["mode_default"]
+            if mode is None:
+                raise Outside("%s relies on a constructor without a literal default mode" % name)
+        elif isinstance(m, ast.Constant) and isinstance(m.value, (str, bytes)):
+            v = m.value.decode() if isinstance(m.value, bytes) else m.value
+            mode = MODES.get(v, "MOther")
+        else:
+            raise Outside("%s computes the mode" % name)
+        f = actual.get("force_overwrite")
+        if f is None:
+            farg = "(FLit %s)" % cbool(bool(sig["force_default"]) if sig["force_default"] is not None else True)
+        elif isinstance(f, ast.Constant) and isinstance(f.value, bool):
+            farg = "(FLit %s)" % cbool(f.value)
+        else:
+            raise Outside("%s computes force_overwrite" % name)
+        parts.append(("SWith", "ctor_" + key, mode, farg))
+    r = parts[-1]
+    for q in reversed(parts[:-1]):
+        r = ("SSeq", q, r)
+    return r
+
+
+SITE_WRITE_CALLS = {"open_dcd_write", "open_file_write", "dcdlib.open_dcd_write", "dtrlib.open_file_write"}
+MODE_ATTRS = {"self.mode", "self._mode", "mode"}
+WRITE_MODE_STRINGS = {"w", "a", "ws", "as", "wb", "ab"}
+
+
+def _method_names(text, cls):
+    m = re.search(r"^(cdef\s+)?class\s+%s\b.*?:\s*$" % re.escape(cls), text, re.M)
+    if not m:
+        raise Outside("class %s not found" % cls)
+    body = text[m.end():]
+    nxt = re.search(r"^(?:cdef\s+)?class\s+\w+", body, re.M)
+    if nxt:
+        body = body[:nxt.start()]
+    return list(dict.fromkeys(re.findall(r"^[ \t]+def\s+(\w+)\s*\(", body, re.M)))
+
+
+def _is_write_guard(st):
+    """`if <mode is not a write mode>: raise` / `_check_mode(self.mode, ('w','a'))` at the head of a method"""
+    if isinstance(st, ast.Expr) and isinstance(st.value, ast.Call) and dotted(st.value.func) == "_check_mode":
+        consts = [c.value for a in st.value.args[1:] for c in ast.walk(a) if isinstance(c, ast.Constant)]
+        return bool(consts) and all(isinstance(v, str) and v in WRITE_MODE_STRINGS for v in consts)
+    if isinstance(st, ast.If) and any(isinstance(n, ast.Raise) for b in st.body for n in ast.walk(b)) and not st.orelse:
+        t = st.test
+        names = {dotted(n) for n in ast.walk(t) if isinstance(n, (ast.Name, ast.Attribute))}
+        if not (names & MODE_ATTRS):
+            return False
+        consts = [c.value for c in ast.walk(t) if isinstance(c, ast.Constant) and isinstance(c.value, (str, bytes))]
+        consts = [c.decode() if isinstance(c, bytes) else c for c in consts]
+        if not consts or not all(c in WRITE_MODE_STRINGS for c in consts):
+            return False
+        # shapes: mode != 'w' / not mode == 'w' / mode not in [...]
+        if isinstance(t, ast.UnaryOp) and isinstance(t.op, ast.Not) and isinstance(t.operand, ast.Compare) \
+                and isinstance(t.operand.ops[0], (ast.Eq, ast.In)):
+            return True
+        if isinstance(t, ast.Compare) and isinstance(t.ops[0], (ast.NotEq, ast.NotIn)):
+            return True
+    return False
+
+
+def _site_effect(call):
+    """effect term of one opener call found in a method (None: not an opener)"""
+    name = dotted(call.func)
+    args = list(call.args)
+    kws = {k.arg: k.value for k in call.keywords if k.arg}
+    if name in READ_ONLY_CALLS:
+        return "OpenRead"
+    if name in SITE_WRITE_CALLS:
+        return "OpenTrunc"
+    if name in REMOVERS:
+        return REMOVERS[name]
+    if name in OPENERS or name == "open_maybe_zipped":
+        m = args[1] if len(args) > 1 else kws.get("mode")
+        if m is None:
+            return "OpenRead"
+        if isinstance(m, ast.Constant) and isinstance(m.value, (str, bytes)):
+            v = m.value.decode() if isinstance(m.value, bytes) else m.value
+            try:
+                return Tr({}).open_mode_effect(v)
+            except Outside:
+                return "OpenTrunc"
+        if dotted(m) in MODE_ATTRS:
+            return "OpenByMode"
+        return "OpenTrunc"                  # a computed mode: assume the worst
+    if name in LIB_OPENERS:
+        m = kws.get("mode", args[1] if len(args) > 1 else None)
+        if m is None or (isinstance(m, ast.Constant) and m.value in ("r", b"r")):
+            return "OpenRead"
+        if dotted(m) in MODE_ATTRS:
+            return "(LibOpen CTrue)"
+        return "OpenTrunc"
+    return None
+
+
+def class_census(repo, entry):
+    """every opener / remover call in the methods of a file class other than its constructor.
+    Returns (read_sites, write_sites): [(method, effect)] for the methods reachable on an object in mode 'r'
+    (no write-mode guard at their head, followed through self.<helper>() calls) and for the write-only ones."""
+    key, rel, cls, ctor, is_pyx = entry
+    text = read(repo, rel)
+    direct, calls, guarded = {}, {}, {}
+    for name in _method_names(text, cls):
+        if name == ctor:
+            continue
+        src = extract_def(text, cls, name)
+        if src is None:
+            continue
+        if is_pyx:
+            src = strip_pyx(src)
+        try:
+            fn = ast.parse(src).body[0]
+        except SyntaxError:
+            # unparseable (C syntax): textual scan; any opener counts as the worst effect unless it is a known reader
+            sites = []
+            for nm in sorted(OPENERS | LIB_OPENERS | set(REMOVERS) | SITE_WRITE_CALLS | READ_ONLY_CALLS | {"open_maybe_zipped"}):
+                if re.search(r"(?<![\w.])%s\s*\(" % re.escape(nm), src):
+                    sites.append("OpenRead" if nm in READ_ONLY_CALLS else "OpenTrunc")
+            direct[name] = sites
+            calls[name] = set(re.findall(r"self\.(\w+)\s*\(", src))
+            guarded[name] = False
+            continue
+        sites = []
+        for n in ast.walk(fn):
+            if isinstance(n, ast.Call):
+                e = _site_effect(n)
+                if e is not None:
+                    sites.append(e)
+        direct[name] = sites
+        calls[name] = {n.func.attr for n in ast.walk(fn) if isinstance(n, ast.Call) and isinstance(n.func, ast.Attribute)
+                       and isinstance(n.func.value, ast.Name) and n.func.value.id == "self"}
+        body = [b for b in fn.body if not (isinstance(b, ast.Expr) and isinstance(b.value, ast.Constant))]
+        guarded[name] = any(_is_write_guard(b) for b in body[:4])
+
+    def reach(name, seen):
+        out = [(name, e) for e in direct.get(name, [])]
+        for c in sorted(calls.get(name, ())):
+            if c in direct and c not in seen:
+                out += reach(c, seen | {c})
+        return out
+
+    entries = [n for n in direct if not n.startswith("_") or (n.startswith("__") and n.endswith("__"))]
+    called = set()
+    for n in direct:
+        called |= calls[n] & set(direct)
+    # a private helper nobody calls is treated as an entry point too
+    entries += [n for n in direct if n not in entries and n not in called]
+    read_sites, write_sites = [], []
+    for n in entries:
+        for (mname, e) in reach(n, {n}):
+            tag = "%s>%s" % (n, mname) if mname != n else n
+            (write_sites if guarded[n] else read_sites).append((tag, e))
+    return sorted(set(read_sites)), sorted(set(write_sites))
+
+
 def build_gen(repo):
     """returns (text of Gen/OverwritePrograms.v, info dict)"""
     funcs = helper_funcs(repo)
@@ -1078,11 +1373,123 @@ def build_gen(repo):
     lines.append("Definition direct : list (string * sstmt) :=\n  [%s]." % ";\n   ".join(direct_rows))
     lines.append("Definition readers : list (string * stmt) :=\n  [%s]." % ";\n   ".join(read_rows))
     lines.append("")
+    # ---- read side and the other modes (Overwrite/Sessions.v)
+    lines.append("(* default value of the mode parameter, read from the signatures *)")
+    dm_rows = []
+    for k in keys:
+        md_ = (CTOR_SIG.get(k) or {}).get("mode_default")
+        if md_ is None:
+            info["degraded"]["default_mode_" + k] = "no literal default for mode"
+            md_ = "MR"
+        dm_rows.append('("%s", %s)' % (k, md_))
+    open_mode_default, open_force_default = "MR", True
+    try:
+        ofn = mod_fns["open"]
+        oparams = [a.arg for a in ofn.args.args]
+        odef = dict(zip(oparams[len(oparams) - len(ofn.args.defaults):], ofn.args.defaults))
+        if not (isinstance(odef.get("mode"), ast.Constant) and odef["mode"].value in MODES):
+            raise Outside("md.open has no literal default mode")
+        open_mode_default = MODES[odef["mode"].value]
+        if isinstance(odef.get("force_overwrite"), ast.Constant):
+            open_force_default = bool(odef["force_overwrite"].value)
+    except (Outside, KeyError) as e:
+        info["degraded"]["md.open defaults"] = str(e)
+    dm_rows.append('("md.open", %s)' % open_mode_default)
+    lines.append("Definition default_modes : list (string * mode) :=\n  [%s]." % ";\n   ".join(dm_rows))
+    lines.append("(* opener / remover calls in the methods (other than the constructor) of each file class that are reachable\n"
+                 "   on an object in mode 'r'; [write_sites]: those of the methods that refuse to run unless the mode is 'w'/'a' *)")
+    sess_rows, wsite_rows = [], []
+    info["method_sites"] = {}
+    for entry in CLASSES:
+        k = entry[0]
+        try:
+            rs, ws = class_census(repo, entry)
+        except Outside as e:
+            info["degraded"]["methods_" + k] = str(e)
+            rs, ws = [], []
+        info["method_sites"][k] = {"read_mode": ["%s:%s" % x for x in rs], "write_mode": ["%s:%s" % x for x in ws]}
+        lines.append("Definition sites_%s : list eff := [%s].  (* %s *)" % (
+            k, "; ".join(e for _m, e in rs), ", ".join(m for m, _e in rs) or "none"))
+        sess_rows.append('("%s", ctor_%s, sites_%s)' % (k, k, k))
+        wsite_rows.append('("%s", [%s])' % (k, "; ".join(e for _m, e in ws)))
+    lines.append("Definition read_sessions : list (string * stmt * list eff) :=\n  [%s]." % ";\n   ".join(sess_rows))
+    lines.append("Definition write_sites : list (string * list eff) :=\n  [%s]." % ";\n   ".join(wsite_rows))
+    lines.append("(* the registered load_* functions: their constructor calls, with the mode they pass (or the default) *)")
+    ltab = loader_table(repo)
+    load_rows = []
+    info["loaders"] = {}
+    for ext in sorted(ltab):
+        rel, name = ltab[ext]
+        if ext not in ftab or ftab[ext] not in CLASS_BY_NAME:
+            continue
+        try:
+            t = translate_loader(repo, rel, name)
+            info["loaders"][ext] = name
+        except Outside as e:
+            info["degraded"]["load." + ext] = str(e)
+            t = ("SWith", "Reference.ctor_" + CLASS_BY_NAME[ftab[ext]], "MR", "(FLit true)")
+        load_rows.append('("%s", %s)' % (ext, psstmt(t, 4)))
+    for ext in PROPERTY_EXTS:
+        if ext not in ltab:
+            raise Outside("extension .%s has no registered loader" % ext)
+    lines.append("Definition loaders : list (string * sstmt) :=\n  [%s]." % ";\n   ".join(load_rows))
+    lines.append("(* md.open(path) with every argument defaulted (md.iterload, md.load_frame reach the file this way) *)")
+    od_rows = []
+    for ext in PROPERTY_EXTS:
+        k = CLASS_BY_NAME[ftab[ext]]
+        for label, _kinds, farg, mode in branches:
+            fa = "(FLit %s)" % cbool(open_force_default) if farg == "FPass" else (
+                farg if farg is not None else "(FLit %s)" % cbool(bool(ctor_force_default.get(k, True))))
+            md_ = open_mode_default if mode == "pass" else (mode if mode is not None else
+                                                           ((CTOR_SIG.get(k) or {}).get("mode_default") or "MR"))
+            key = ext if label == "default" else "%s@%s" % (ext, label)
+            od_rows.append('("%s", SWith ctor_%s %s %s)' % (key, k, md_, fa))
+    lines.append("Definition open_defaults : list (string * sstmt) :=\n  [%s]." % ";\n   ".join(od_rows))
+    try:
+        fwd = save_dispatch_forwards(fns["save"])
+    except (Outside, KeyError) as e:
+        info["degraded"]["Trajectory.save dispatch"] = str(e)
+        # keyword arguments modified / not handed on: the saver does not get the caller's force_overwrite (lemma
+        # save_dispatch_checked breaks); any other shape: not recognised, the save correspondence alone ties the dispatch
+        fwd = not (" modifies " in str(e) or " does not end in " in str(e) or " reassigns " in str(e))
+    lines.append("(* Trajectory.save looks the saver up by extension and calls it as saver(filename, **kwargs), kwargs untouched *)")
+    lines.append("Definition save_dispatch_forwards : bool := %s." % cbool(fwd))
+    lines.append("(* savers that take a mode parameter, with mode='a' *)")
+    ap_rows = []
+    for name in saver_names:
+        fnode = fns.get(name)
+        if fnode is None or "mode" not in [a.arg for a in fnode.args.args]:
+            continue
+        try:
+            t = translate_saver(fnode, ctor_force_default, mode_override="a")
+            ap_rows.append('("%s", %s)' % (name, psstmt(t, 4)))
+            info.setdefault("append_savers", []).append(name)
+        except Outside as e:
+            info["degraded"][name + "(mode='a')"] = str(e)
+    lines.append("Definition append_savers : list (string * sstmt) :=\n  [%s]." % ";\n   ".join(ap_rows))
+    lines.append("")
     defs_text = "\n".join(lines) + "\n"
     lines = ["(* GENERATED by harness/props/C20.py: obligations about Gen/OverwritePrograms.v, re-proved on every run. *)",
              "From Coq Require Import List String Bool.", "Import ListNotations.",
-             "Require Import MD.Overwrite.Model MD.Gen.OverwritePrograms.", ""]
+             "Require Import MD.Overwrite.Model MD.Overwrite.Sessions MD.Gen.OverwritePrograms.", ""]
     # obligations re-proved on every run, by computation (reflection)
+    for k in keys:
+        lines.append("Lemma append_%s : check_append ctor_%s = true. Proof. vm_compute. reflexivity. Qed." % (k, k))
+        lines.append("Lemma badmode_%s : check_badmode ctor_%s = true. Proof. vm_compute. reflexivity. Qed." % (k, k))
+        lines.append("Lemma session_%s : check_session ctor_%s sites_%s = true. Proof. vm_compute. reflexivity. Qed." % (k, k, k))
+    lines.append("Lemma all_ctors_append : forallb (fun x => check_append (snd x)) ctors = true. "
+                 "Proof. vm_compute. reflexivity. Qed.")
+    lines.append("Lemma all_ctors_badmode : forallb (fun x => check_badmode (snd x)) ctors = true. "
+                 "Proof. vm_compute. reflexivity. Qed.")
+    lines.append("Lemma save_dispatch_checked : save_dispatch_forwards = true. Proof. reflexivity. Qed.")
+    lines.append("Lemma all_default_modes_read : all_default_read (map snd default_modes) = true. "
+                 "Proof. vm_compute. reflexivity. Qed.")
+    lines.append("Lemma all_sessions_checked : forallb (fun x => check_session (snd (fst x)) (snd x)) read_sessions = true. "
+                 "Proof. vm_compute. reflexivity. Qed.")
+    lines.append("Lemma all_loaders_checked : forallb (fun x => check_load (snd x)) (loaders ++ open_defaults) = true. "
+                 "Proof. vm_compute. reflexivity. Qed.")
+    lines.append("Lemma all_append_savers_checked : forallb (fun x => check_save_append (snd x)) append_savers = true. "
+                 "Proof. vm_compute. reflexivity. Qed.")
     for k in keys:
         lines.append("Lemma guarded_%s : check_guarded ctor_%s = true. Proof. vm_compute. reflexivity. Qed." % (k, k))
         lines.append("Lemma truncates_%s : check_truncates ctor_%s = true. Proof. vm_compute. reflexivity. Qed." % (k, k))
@@ -1123,7 +1530,9 @@ SINGLE_FRAME = {"rst7", "ncrst"}
 # (extension, argument kind) whose handling is a recorded finding (known_findings/C20.json): the effect programs say
 # nothing about argument types, so these cases are judged by the sha256 oracle only, not compared with the model
 NOT_MODELLED_ARGS = {("dtr", "slash"), ("nc", "pathlike"), ("netcdf", "pathlike"), ("ncdf", "pathlike")}
-READ_OPS = ["load", "load_stride", "load_atoms", "load_frame", "iterload", "open_read", "open_force_true", "len_seek", "load_topology"]
+READ_OPS = ["load", "load_stride", "load_atoms", "load_frame", "iterload", "open_read", "open_force_true", "len_seek", "load_topology",
+            "fmt_loader", "write_on_read_handle", "with_read_partial", "load_list", "iterload_opts", "seek_back"]
+BAD_MODES = ["x", "rw", "wb", "w+", "", "R", "W", "r+", "ab"]
 
 
 def build_cases(ctx):
@@ -1185,6 +1594,19 @@ def build_cases(ctx):
                     cases.append({"kind": "write", "ext": ext, "entry": "save", "pre": 3, "pre_at": 2, "frames": 3,
                                   "force": force, "arg": arg})
     reads = [{"kind": "read", "ext": ext, "op": op} for ext in PROPERTY_EXTS for op in READ_OPS]
+    # modes other than 'w': 'a' (HDF5 appends, every other class refuses) and strings that are no mode at all
+    for xi, ext in enumerate(PROPERTY_EXTS):
+        bad = BAD_MODES if not quick else [BAD_MODES[(xi + j + ctx.seed) % len(BAD_MODES)] for j in (0, 4)]
+        for mode in ["a"] + list(bad):
+            for pre in ((0, 1, 3) if quick else (0, 1, 2, 3, 4)):
+                for force in (False, True):
+                    cases.append({"kind": "mode", "ext": ext, "entry": "open_mode", "mode": mode, "pre": pre,
+                                  "force": force})
+    for mode in ("a", "x"):
+        for pre in (0, 1, 2, 3, 4):
+            for force in (False, True):
+                cases.append({"kind": "mode", "ext": "h5", "entry": "save_mode", "mode": mode, "pre": pre, "force": force})
+    cases += series_cases(ctx)
     if not quick:
         # a random extra stream over the whole grid (repeats catch order/time dependent behaviour)
         for _ in range(400):
@@ -1195,6 +1617,63 @@ def build_cases(ctx):
                           "pre_at": ctx.rng.choice([0, 0, 1, 2, 3]) if entry == "save" else 0,
                           "frames": frames, "force": ctx.rng.random() < 0.5})
     return cases, reads
+
+
+def series_cases(ctx):
+    """numbered restart output with frame counts that change the width of the zero padding (9 | 10, 12 | 100, 101) and
+    pre-existing files at padded target names, at unpadded / differently padded names (not targets) and at the base
+    name; thorough: every subset of the candidate names, quick: singletons, some pairs, all"""
+    quick = ctx.tier == "quick"
+    out = []
+    for ext in sorted(SINGLE_FRAME):
+        for N in ((9, 12, 100) if quick else (2, 9, 10, 12, 100, 101)):
+            w = len(str(N))
+            cand = [".%0*d" % (w, 1), ".%0*d" % (w, min(7, N - 1)), ".%0*d" % (w, N)]      # targets: first, low, last
+            if w > 1:
+                cand += [".1", ".%d" % min(7, N - 1)]                                     # unpadded: not targets
+            cand += [".%0*d" % (w + 1, 1), ""]                                             # wider padding, the base name
+            cand = list(dict.fromkeys(cand))
+            if quick:
+                subsets = [[c] for c in cand] + [cand[:2], [cand[0], cand[-1]], cand[3:5] if w > 1 else cand[1:3], cand]
+                if N == 100:
+                    subsets = subsets[:4] + [cand]
+            else:
+                subsets = [[c for j, c in enumerate(cand) if m >> j & 1] for m in range(1, 2 ** len(cand))]
+                if N >= 100:
+                    subsets = [sb for sb in subsets if len(sb) <= 2 or len(sb) == len(cand)]
+            for sb in subsets:
+                if not sb:
+                    continue
+                for force in (False, True):
+                    pre = [[c, "valid" if (j + len(sb)) % 2 == 0 else "bytes"] for j, c in enumerate(sb)]
+                    out.append({"kind": "series", "ext": ext, "frames": N, "force": force, "pre": pre})
+    return out
+
+
+def run_series_cases(ctx, series, outs):
+    """the property itself on numbered restart series (the effect model numbers the files abstractly, it does not know
+    about zero padding: this stream is judged by the sha256 oracle alone)"""
+    for c, o in zip(series, outs):
+        ctx.count(c, nontrivial=True, bucket="series/%s/n=%d/force=%s" % (c["ext"], c["frames"], c["force"]))
+        tags = {"ext": c["ext"], "entry": "save", "force": c["force"], "frames": c["frames"], "stream": "series"}
+        if o["stray"]:
+            ctx.fail("%s: a numbered save leaves files that are neither targets nor were there before" % c["ext"], c,
+                     observed=o, expected="only the numbered targets", tags=dict(tags, kind="stray"))
+        others_changed = [x for x in o["changed"] if x in o["pre_other"]]
+        if others_changed:
+            ctx.fail("%s: a numbered save touched an existing file that is not one of its targets" % c["ext"], c, observed=o,
+                     expected="non-target paths byte-identical", tags=dict(tags, kind="frame"))
+        if not c["force"]:
+            if [x for x in o["changed"] if x in o["pre_targets"]]:
+                ctx.fail("%s: force_overwrite=False modified an existing numbered file" % c["ext"], c, observed=o,
+                         expected="pre-existing path byte-identical", tags=dict(tags, kind="modified"))
+            elif o["pre_targets"] and o["raised"] is None:
+                ctx.fail("%s: force_overwrite=False at an existing numbered target did not raise" % c["ext"], c,
+                         observed=o, expected="an error", tags=dict(tags, kind="no_error"))
+        if o["raised"] is None and (c["force"] or not o["pre_targets"]):
+            if o["bad_targets"] or o["n_created"] + len(o["pre_targets"]) != o["n_targets"]:
+                ctx.fail("%s: a numbered save returned normally but a target does not hold exactly its frame" % c["ext"], c,
+                         observed=o, expected="file k holds frame k", tags=dict(tags, kind="not_written"))
 
 
 def model_pre(c):
@@ -1214,7 +1693,11 @@ def is_target(c, i):
 def run_cases(ctx, cases):
     writes = [c for c in cases if c.get("kind", "write") == "write"]
     reads = [c for c in cases if c.get("kind") == "read"]
-    res = ctx.run_impl("overwrite_impl.py", {"cases": writes, "reads": reads})
+    modes = [c for c in cases if c.get("kind") == "mode"]
+    series = [c for c in cases if c.get("kind") == "series"]
+    res = ctx.run_impl("overwrite_impl.py", {"cases": writes, "reads": reads, "modes": modes, "series": series})
+    run_mode_cases(ctx, modes, res.get("modes", []))
+    run_series_cases(ctx, series, res.get("series", []))
     # ---------------- the property itself, on the implementation (oracle)
     for c, o in zip(writes, res["cases"]):
         ctx.count(c, nontrivial=c["pre"] != 0, bucket="%s/%s/force=%s/%s" % (
@@ -1256,6 +1739,12 @@ def run_cases(ctx, cases):
         if o["changed"] or o["new_files"]:
             ctx.fail("%s: read entry point %s altered the file or created files" % (c["ext"], c["op"]), c, observed=o,
                      expected="directory byte-identical", tags={"ext": c["ext"], "op": c["op"], "kind": "read_modifies"})
+        elif o.get("touched"):
+            ctx.fail("%s: read entry point %s rewrote the file (same bytes, new modification time)" % (c["ext"], c["op"]),
+                     c, observed=o, expected="file not written to", tags={"ext": c["ext"], "op": c["op"], "kind": "read_touches"})
+        if c["op"] == "write_on_read_handle" and o.get("refused") is False:
+            ctx.fail("%s: write() on an object opened for reading did not raise" % c["ext"], c, observed=o,
+                     expected="an error", tags={"ext": c["ext"], "op": c["op"], "kind": "read_handle_writes"})
     # ---------------- the tie: translated programs predict exactly what happened
     branches = getattr(ctx, "c20_info", {}).get("md_open_branches") or [("default", None)]
 
@@ -1324,6 +1813,61 @@ def run_cases(ctx, cases):
                    "the effect program translated for .%s does not predict the implementation on %d cases; e.g. %s -> %s"
                    % (ext, len(ii), writes[ex], {k: res["cases"][ex][k] for k in ("raised", "status", "detail")}))
         ctx.notes.setdefault("tie_examples", []).append({"case": writes[ex], "impl": res["cases"][ex]})
+
+
+def run_mode_cases(ctx, modes, outs):
+    """oracle and tie for md.open(path, 'a' | <no mode>, ...) and save_hdf5(mode=...)"""
+    if not modes:
+        return
+    cc, idx = [], []
+    for i, (c, o) in enumerate(zip(modes, outs)):
+        is_a = c["mode"] == "a"
+        ctx.count(c, nontrivial=c["pre"] != 0, bucket="mode/%s/%s/%s" % (
+            c["entry"], "a" if is_a else "unknown", "pre" if c["pre"] else "fresh"))
+        tags = {"ext": c["ext"], "entry": c["entry"], "mode": c["mode"], "pre": c["pre"], "force": c["force"]}
+        if o["stray"]:
+            ctx.fail("%s: mode %r leaves unexpected files next to the target" % (c["ext"], c["mode"]), c, observed=o,
+                     expected="only the target path", tags=dict(tags, kind="stray"))
+        if o["raised"] is not None and o["status"] != 0:
+            ctx.fail("%s: opening with mode %s raised but the path was modified" % (c["ext"], "'a'" if is_a else "that is not a mode"),
+                     c, observed=o, expected="path unchanged", tags=dict(tags, kind="mode_modified"))
+        if o["raised"] is None and c["pre"] != 0:
+            if not is_a and o["status"] != 0:
+                ctx.fail("%s: an unknown mode string modified an existing path" % c["ext"], c, observed=o,
+                         expected="an error, path unchanged", tags=dict(tags, kind="mode_modified"))
+            if is_a and c["pre"] in (1, 2) and o["status"] != 1:
+                ctx.fail("%s: append mode did not keep the old frames in front of the new ones" % c["ext"], c, observed=o,
+                         expected="old frames followed by the new frames", tags=dict(tags, kind="append_loses"))
+            if is_a and c["pre"] == 3 and o["status"] != 0 and o.get("prefix_kept") is False:
+                ctx.fail("%s: append mode destroyed the old bytes of the file" % c["ext"], c, observed=o,
+                         expected="old bytes kept", tags=dict(tags, kind="append_loses"))
+        if o["raised"] is None and c["pre"] == 0 and is_a and o["status"] != 2:
+            ctx.fail("%s: append mode on a fresh path returned normally but the file does not hold the new frames" % c["ext"],
+                     c, observed=o, expected="exactly the new frames", tags=dict(tags, kind="not_written"))
+        # tie: the translated constructor / saver under MA / MOther (content validity is not part of the model:
+        # 'a' on unrelated bytes is judged by the oracle only; so is a saver's own validation of its mode argument)
+        if (is_a and c["pre"] == 3) or (c["entry"] == "save_mode" and not is_a):
+            continue
+        key = "save_hdf5" if c["entry"] == "save_mode" else c["ext"]
+        cc.append(("(%s, %s, %s, %s, %s)" % (cstr(key), cnat(1 if c["entry"] == "save_mode" else 0),
+                                             cnat(2 if is_a else 3), cnat(model_pre(c)), cbool(c["force"])),
+                   "Some (%s, %s)" % (cbool(o["raised"] is not None), cnat(o["status"]))))
+        idx.append(i)
+    bad, errs = ctx.coq_mismatches(["MD.Overwrite.Model", "MD.Overwrite.Predict"],
+                                   ("string * nat * nat * nat * bool", "option (bool * nat)"),
+                                   "resm_eqb", "predict_mode", cc)
+    if errs:
+        ctx.break_("correspondence:coqc-evaluation", "\n".join(errs))
+        return
+    by_ext = {}
+    for b in bad:
+        by_ext.setdefault(modes[idx[b]]["ext"], []).append(idx[b])
+    for ext, ii in sorted(by_ext.items()):
+        ex = ii[0]
+        ctx.break_("correspondence:mode-model[%s]" % ext,
+                   "the constructor program translated for .%s does not predict the implementation in mode 'a' / an unknown "
+                   "mode on %d cases; e.g. %s -> %s" % (ext, len(ii), modes[ex], outs[ex]))
+        ctx.notes.setdefault("tie_examples", []).append({"case": modes[ex], "impl": outs[ex]})
 
 
 def correspond(ctx):
